@@ -48,6 +48,17 @@ def run(ctx):
                                              "method": [None, "map-reduce", "cohorts"], "split_every": [2, 3, 4]}, build))
     spaces.append(gen.Space("int5", {"vals": gen.seqs([gen.iv(1), gen.iv(2)], 5), "codes": pats[5][:2], "chunks_i": range(16), "func": FUNCS,
                                      "method": [None, "map-reduce", "cohorts"], "split_every": [2, 3]}, lambda **kw: build(dtype="i8", **kw)))
+    # many blocks, partially overlapping labels: the planner merges cohorts, block tuples come out of set()s
+    def build_overlap(seed, vseed, func, method, split_every):
+        codes, chunks = gen.overlap_layout(seed)
+        import random
+
+        rng = random.Random(vseed * 977 + seed)
+        vals = [rng.choice(TIES) for _ in codes]
+        return {"func": func, "vals": vals, "dtype": "f8", "codes": codes, "label_kind": "int", "chunks": chunks, "method": method, "split_every": split_every}
+
+    spaces.append(gen.Space("overlap12", {"seed": range(40 if ctx.tier == "quick" else 400), "vseed": range(3), "func": FUNCS, "method": [None, "cohorts", "map-reduce"],
+                                          "split_every": [None, 2, 3]}, build_overlap))
     budget = 6000 if ctx.tier == "quick" else 120000
     cases = []
     for sp in spaces:
